@@ -51,6 +51,7 @@ MIN = {'quick': {'distinct': 20000,
                             'gzip': 100, 'export v4': 150,
                             'tigerxml without VROOT node': 30, 'arity > 6': 50,
                             'brackets_emptypos': 30,
+                            'file longer than 24 000 characters': 8,
                             'word starting with # or %%': 60,
                             'gf_separator differs from the labels': 30,
                             'word with non-ASCII space character': 30,
@@ -160,7 +161,7 @@ def make_label(rng, cat, sep, allow):
     return lab, [cat, gf, gap, co, head]
 
 
-def make_bank(rng, fmt, decorated, sep, quick=True, unispace=True):
+def make_bank(rng, fmt, decorated, sep, quick=True, unispace=True, big=False):
     words = rng.choice([gen.WORDS_ASCII, gen.WORDS_ASCII + gen.PUNCT[:8]
                         + gen.COMMA, gen.WORDS_ASCII + gen.WORDS_NONASCII
                         + gen.WORDS_BEYOND_LATIN1,
@@ -181,6 +182,9 @@ def make_bank(rng, fmt, decorated, sep, quick=True, unispace=True):
                       edges=['HD', 'NK', 'SB', 'OA', 'MO', '--', '--'],
                       morphs=gen.MORPHS + ['[Sg]', '(x)', '-LRB-'])
     k = rng.randint(1, 4 if quick else 6)
+    if big:
+        # a file well beyond any internal buffer size (> 3 x 8192 characters)
+        k = rng.randint(150, 260)
     cont = fmt == 'brackets'
     bank = []
     sid = rng.choice([1, 1, 5, 100])
@@ -414,6 +418,9 @@ def run_case(ctx, case, probe_obj=None):
         ctx.stratum(o)
     if case.get('gz'):
         ctx.stratum('gzip')
+    if case.get('big'):
+        ctx.stratum('file longer than 24 000 characters'
+                    if len(text) > 24000 else 'large file')
     if case.get('mismatch'):
         ctx.stratum('gf_separator differs from the labels')
     if any(t['w'][:1] in '#%' for sp in bank for t in gen.tokens_of(sp['root'])):
@@ -494,7 +501,9 @@ def draw_case(rng, fmt, quick):
             'sep': sep, 'mismatch': mismatch,
             'gz': fmt != 'tigerxml' and rng.random() < 0.15,
             'layout_seed': rng.randrange(10 ** 6)}
-    case['bank'] = make_bank(rng, fmt, decorated, sep, quick)
+    big = rng.random() < 0.012
+    case['bank'] = make_bank(rng, fmt, decorated, sep, quick, big=big)
+    case['big'] = big
     if eo.get('emptypos'):
         for sp in case['bank']:
             for t in gen.tokens_of(sp['root']):
